@@ -931,6 +931,12 @@ class Parser:
         if isinstance(exprnode, pycparser.c_ast.BinaryOp):
             left = self._parse_constant(exprnode.left)
             right = self._parse_constant(exprnode.right)
+            if exprnode.op in ('/', '%') and right == 0:
+                raise CDefError(":%d: division by zero in a constant "
+                                "expression" % exprnode.coord.line)
+            if exprnode.op in ('<<', '>>') and right < 0:
+                raise CDefError(":%d: negative shift count in a constant "
+                                "expression" % exprnode.coord.line)
             if exprnode.op == '+':
                 return left + right
             elif exprnode.op == '-':
